@@ -91,6 +91,9 @@ def _do_transfer(  # noqa: C901
         logger.debug("transfer dir: %s with %d files", dir_hash, len(bound_file_ids))
 
         dir_fails = _add(src, dest, bound_file_ids, **kwargs)
+        # NOTE: files shared with a previously processed dir are no longer in
+        # file_ids, so we need to account for their failures here as well.
+        dir_fails.update(entry_ids & failed_ids)
         if dir_fails:
             logger.debug(
                 "failed to upload full contents of '%s', aborting .dir file upload",
